@@ -423,6 +423,11 @@ _FUZZ = {"fuzz_kernel": ["C01", "C02", "C03", "C04", "C12", "C17"], "fuzz_querie
 # initial corpus (random programs) and the program length so that loading it takes well under the campaign time
 _FUZZ_SIZE = {"C12": (15, 40), "C10": (15, 40), "C16": (15, 40), "C15": (20, 25),
               "C17": (40, 60), "C05": (40, 60), "C08": (60, 60), "C09": (40, 60), "C11": (40, 60)}
+# thorough tier: case counts are upper bounds; every worker stops starting new cases after budget_s seconds
+for _c in CHECKS.values():
+    if _c["kind"] == "rc_program":
+        _c["thorough"].setdefault("budget_s", 1500)
+        _c["thorough"]["timeout"] = 3000
 for _t, _ids in _FUZZ.items():
     for _i in _ids:
         _n, _ops = _FUZZ_SIZE.get(_i, (300, 110))
